@@ -949,7 +949,7 @@ fn main() {
     let mut rng = Rng::derive(a.seed, "C01", 0);
 
     // layer 4: names
-    let n_names = a.pick(100_000u64, 1_000_000);
+    let n_names = a.pick(100_000u64, 2_000_000);
     for _ in 0..n_names {
         let (_sk, pk) = rand_key(&mut rng);
         // round trip through the real encoder
@@ -969,19 +969,19 @@ fn main() {
         check_name(&rep, &s, origin);
     }
     // layer 3: verifiers
-    verify_cert_cases(&rep, &mut rng, a.pick(20_000, 500_000));
-    verify_sig_cases(&rep, &mut rng, a.pick(10_000, 250_000));
+    verify_cert_cases(&rep, &mut rng, a.pick(20_000, 1_000_000));
+    verify_sig_cases(&rep, &mut rng, a.pick(10_000, 500_000));
 
     // layers 1 + 2: real endpoints
     let rt = epkit::runtime(8);
     rt.block_on(async {
-        let rounds = a.pick(2, 6);
+        let rounds = a.pick(2, 10);
         for r in 0..rounds {
             let n = a.pick(6, 12);
             honest_pool(&rep, &mut rng, n, r % 2 == 1).await;
         }
         let dialer = epkit::builder(epkit::secret(rng.array())).bind().await.expect("bind");
-        let per = a.pick(12, 80);
+        let per = a.pick(12, 160);
         for _ in 0..per {
             for s in STRATEGIES {
                 hostile_round(&rep, &mut rng, &dialer, s).await;
